@@ -7,6 +7,7 @@ import (
 	"net"
 	"sort"
 	"strings"
+	"sync/atomic"
 	"testing"
 	"testing/synctest"
 	"time"
@@ -294,6 +295,99 @@ func c19Score(r *rng, id string) {
 	n.m.Shutdown()
 }
 
+
+// (d) the pending-acknowledgement table as a state machine: registrations (probe channels and relay
+// handlers), acks and nacks for pending, consumed, expired and foreign sequence numbers, and the clock;
+// after every operation the set of pending numbers and what the handlers were told are printed.
+func c19Table(r *rng, id string) {
+	n, err := newC19(1, "off", 8)
+	if err != nil {
+		return
+	}
+	m := n.m
+	defer m.Shutdown()
+	type reg struct {
+		seq   uint32
+		probe *ml.VerifProbeCh
+		relay *int32
+		seen  int32
+	}
+	var regs []*reg
+	next := uint32(100 + r.intn(50))
+	var toks []string
+	nops := 5 + r.intn(25)
+	for i := 0; i < nops; i++ {
+		tok := ""
+		pick := func() uint32 {
+			if len(regs) > 0 && r.chance(3, 4) {
+				return regs[r.intn(len(regs))].seq
+			}
+			return next + uint32(1000+r.intn(5)) // never registered
+		}
+		switch k := r.intn(10); {
+		case k < 3:
+			next++
+			tm := time.Duration(100*(1+r.intn(9))) * time.Millisecond
+			g := &reg{seq: next}
+			if r.chance(2, 3) {
+				g.probe = ml.VerifSetProbeChannels(m, next, tm)
+				tok = fmt.Sprintf("set:%d:%d:p", next, tm.Milliseconds())
+			} else {
+				g.relay = ml.VerifSetAckHandler(m, next, tm)
+				tok = fmt.Sprintf("set:%d:%d:r", next, tm.Milliseconds())
+			}
+			regs = append(regs, g)
+		case k < 5:
+			sq := pick()
+			tok = fmt.Sprintf("ack:%d", sq)
+			ml.VerifInvokeAck(m, sq)
+		case k < 7:
+			sq := pick()
+			tok = fmt.Sprintf("nack:%d", sq)
+			ml.VerifInvokeNack(m, sq)
+		default:
+			d := time.Duration(50*(1+r.intn(12))) * time.Millisecond
+			tok = fmt.Sprintf("tick:%d", d.Milliseconds())
+			time.Sleep(d)
+		}
+		synctest.Wait()
+		var evs []string
+		for _, g := range regs {
+			if g.probe != nil {
+				a, t, k := g.probe.Drain()
+				for ; a > 0; a-- {
+					evs = append(evs, fmt.Sprintf("a%d", g.seq))
+				}
+				for ; t > 0; t-- {
+					evs = append(evs, fmt.Sprintf("t%d", g.seq))
+				}
+				for ; k > 0; k-- {
+					evs = append(evs, fmt.Sprintf("n%d", g.seq))
+				}
+			} else {
+				c := atomic.LoadInt32(g.relay)
+				for ; g.seen < c; g.seen++ {
+					evs = append(evs, fmt.Sprintf("a%d", g.seq))
+				}
+			}
+		}
+		var pend []string
+		for _, sq := range ml.VerifSnapshotState(m).AckHandlers {
+			pend = append(pend, fmt.Sprint(sq))
+		}
+		sort.Strings(pend)
+		sort.Strings(evs)
+		j := func(x []string) string {
+			if len(x) == 0 {
+				return "-"
+			}
+			return strings.Join(x, ".")
+		}
+		toks = append(toks, fmt.Sprintf("%s>%s|%s", tok, j(pend), j(evs)))
+	}
+	emit("C19 tbl id=%s ops=%s", id, strings.Join(toks, ";"))
+}
+
 func TestC19(t *testing.T) {
 	n := envInt("VERIF_N", 1500)
 	if thorough() {
@@ -307,5 +401,8 @@ func TestC19(t *testing.T) {
 	})
 	forCases(n/5, 193, "s", func(i int, r *rng, id string) {
 		synctest.Test(t, func(t *testing.T) { c19Score(r, id) })
+	})
+	forCases(n/3, 194, "t", func(i int, r *rng, id string) {
+		synctest.Test(t, func(t *testing.T) { c19Table(r, id) })
 	})
 }
